@@ -56,12 +56,15 @@ def install_invariant():
 def _mk_table(rng, variant):
     from sdc11073 import multikey
     t = multikey.MultiKeyLookup()
-    t.add_index('by_a', multikey.UIndexDefinition(lambda o: o.a, index_none_values=variant % 2 == 0))
-    t.add_index('by_b', multikey.IndexDefinition(lambda o: o.b))
-    t.add_index('by_c', multikey.IndexDefinition1n(lambda o: o.c))
-    t.add_index('by_d', multikey.IndexDefinition(lambda o: o.d, index_none_values=False))
+    defs = [('by_a', multikey.UIndexDefinition(lambda o: o.a, index_none_values=variant % 2 == 0)),
+            ('by_b', multikey.IndexDefinition(lambda o: o.b)),
+            ('by_c', multikey.IndexDefinition1n(lambda o: o.c)),
+            ('by_d', multikey.IndexDefinition(lambda o: o.d, index_none_values=False))]
     if variant >= 2:
-        t.add_index('by_name', multikey.UIndexDefinition(lambda o: o.name))
+        defs.append(('by_name', multikey.UIndexDefinition(lambda o: o.name)))
+    rng.shuffle(defs)  # the position of the unique indices among the others varies (like handle in MultiStatesLookup)
+    for name, d in defs:
+        t.add_index(name, d)
     return t
 
 
